@@ -5,6 +5,12 @@ Emit == (Terminal /\ (cmd = "server" \/ exit # "running")) =>
           PrintT(<<"REPLAY", ToJson([kind |-> "loop", cmd |-> cmd, outs |-> outs, runs |-> i, exit |-> exit])>>)
 EmitTable == (i = 0 /\ cmd = "vrps" /\ outs = <<"ok">>) =>
   \A refresh \in Times, minRefresh \in Times \cup {0}, expiry \in Times \cup {0} :
-     PrintT(<<"REPLAY", ToJson([kind |-> "wait", refresh |-> refresh, min |-> minRefresh, expiry |-> expiry,
-                                wait |-> RefreshWait(refresh, minRefresh, expiry)])>>)
+     /\ PrintT(<<"REPLAY", ToJson([kind |-> "wait", refresh |-> refresh, min |-> minRefresh, expiry |-> expiry, prev |-> -1,
+                                   wait |-> RefreshWait(refresh, minRefresh, expiry)])>>)
+     \* the same after an earlier run with the same payload whose data set expired at another time
+     \* (prev = 0: no expiry before the refresh point; otherwise early)
+     /\ (minRefresh # 0 =>
+           LET prev == IF expiry # 0 /\ expiry < refresh THEN 0 ELSE 1 IN
+           PrintT(<<"REPLAY", ToJson([kind |-> "wait", refresh |-> refresh, min |-> minRefresh, expiry |-> expiry, prev |-> prev,
+                                      wait |-> RefreshWait(refresh, minRefresh, expiry)])>>))
 =============================================================================
